@@ -1298,21 +1298,35 @@ where
     }
 
     pub(crate) async fn fsyncdata(&self) -> IOResult<()> {
-        if self.fsync_in_progress.compare_exchange(false, true, Ordering::AcqRel, Ordering::Acquire).is_err() {
-            return Ok(())
-        }
+        loop {
+            if self.fsync_in_progress.compare_exchange(false, true, Ordering::AcqRel, Ordering::Acquire).is_err() {
+                return Ok(())
+            }
 
-        let _flag = ResetableFlag { flag: &self.fsync_in_progress };
+            {
+                let _flag = ResetableFlag { flag: &self.fsync_in_progress };
 
-        let safe = self.safe.read().await;
-        if let Some(ablob) = &safe.active_blob {
-            let ablob = ablob.read().await;
-            if !self.too_many_dirty_bytes(ablob.file_dirty_bytes()) {
+                let safe = self.safe.read().await;
+                if self.active_blob_has_too_many_dirty_bytes(&safe).await {
+                    safe.fsyncdata().await?;
+                }
+            }
+
+            // A write finished while the flag was set has not requested a sync (see `should_try_fsync`),
+            // so dirty bytes are checked once more after the flag is reset
+            let safe = self.safe.read().await;
+            if !self.active_blob_has_too_many_dirty_bytes(&safe).await {
                 return Ok(());
             }
         }
+    }
 
-        safe.fsyncdata().await
+    async fn active_blob_has_too_many_dirty_bytes(&self, safe: &Safe<K>) -> bool {
+        if let Some(ablob) = &safe.active_blob {
+            self.too_many_dirty_bytes(ablob.read().await.file_dirty_bytes())
+        } else {
+            false
+        }
     }
 
     /// Dumps indexes on old blobs. This method is slow, so it is better to run it in background
